@@ -33,7 +33,10 @@ namespace {
 
 // ---------------------------------------------------------------- allocation tracking
 constexpr size_t kTab = 1 << 18;
-const volatile void* gTab[kTab];
+// pointers are stored XOR-masked: LeakSanitizer scans globals, and a plain copy of the
+// pointer here would make every leaked block "reachable"
+constexpr uintptr_t kMask = 0x5a5a5a5a5a5a5a5aull;
+uintptr_t gTab[kTab];   // 0 = empty, 1 = tombstone, else pointer ^ kMask
 size_t gTabSize[kTab];
 int gInC = 0;         // >0 while a C API call is executing
 long gTracked = 0;    // live tracked allocations
@@ -45,7 +48,7 @@ void MallocHook(const volatile void* p, size_t n) {
   size_t h = HashP(p);
   for (size_t k = 0; k < kTab; ++k) {
     size_t i = (h + k) & (kTab - 1);
-    if (gTab[i] == nullptr || gTab[i] == (void*)1) { gTab[i] = p; gTabSize[i] = n; ++gTracked; return; }
+    if (gTab[i] == 0 || gTab[i] == 1) { gTab[i] = uintptr_t(p) ^ kMask; gTabSize[i] = n; ++gTracked; return; }
   }
   gOverflow = true;
 }
@@ -54,8 +57,8 @@ void FreeHook(const volatile void* p) {
   size_t h = HashP(p);
   for (size_t k = 0; k < kTab; ++k) {
     size_t i = (h + k) & (kTab - 1);
-    if (gTab[i] == nullptr) return;
-    if (gTab[i] == p) { gTab[i] = (void*)1; --gTracked; return; }
+    if (gTab[i] == 0) return;
+    if (gTab[i] == (uintptr_t(p) ^ kMask)) { gTab[i] = 1; --gTracked; return; }
   }
 }
 void ResetTracking() {
